@@ -29,12 +29,16 @@ theorem icmp6_create_inv (t : Nat) : (Icmp6.create t).Inv := by
 
 theorem icmp6_create_ser (t : Nat) : (Icmp6.create t).Ser := by
   refine ⟨?_, ?_⟩
-  · simp only [Icmp6.create, Icmp6.wireSum, Icmp6.extra]
-    split
-    · omega
-    · split
-      · simp
-      · split <;> simp
+  · have hx : (Icmp6.create t).extra ≤ 20 := by
+      simp only [Icmp6.create, Icmp6.extra]
+      split
+      · omega
+      · split
+        · simp
+        · split <;> simp
+    have hw : Icmp6.wireSum (Icmp6.create t).opts = 0 := rfl
+    rw [hw]
+    split <;> split <;> omega
   · simp [Icmp6.create, ExtS.default, ExtS.plainSize]
 
 theorem icmp6_make_inv (args : List String) (p : Icmp6) (h : Icmp6.make args = .ok p) : p.Inv := by
